@@ -276,7 +276,9 @@ func (c *StandardClass) initObjSlots(obj *StandardObject) {
 	for _, ic := range c.inherit {
 		if sc, ok := ic.(isStandardClass); ok {
 			for k, sd := range sc.slotDefMap() {
-				if _, has := obj.vars[k]; !has && !sd.classStore {
+				// A more specific definition can allocate the slot in the
+				// class, the instance then has no slot of its own.
+				if _, has := obj.vars[k]; !has && !sd.classStore && c.classSlots[k] == nil {
 					obj.vars[k] = sd.initform
 				}
 			}
